@@ -132,3 +132,8 @@ package characteristic
 //@   requires wellTyped(c) && finiteBounds(c)
 //@   modifies heap, callcount
 //@   ensures wellTyped(c) && finiteBounds(c) && v == c.Value && sametype(c) && sameheap("func") && modelKept() && c.ID == old(c.ID)
+
+// ---- the attribute database as a set of characteristic objects (used by the HTTP handlers, C09/C13)
+// dbmember(r): object r is a characteristic of the served container. membersOK(): every member is well typed.
+//@ spec func dbmember(ref) bool
+//@ pred membersOK() = forallv("c:ref", dbmember(c) ==> c > 0 && wellTyped(at(c, "github.com/brutella/hc/characteristic.Characteristic")) && finiteBounds(at(c, "github.com/brutella/hc/characteristic.Characteristic")), dbmember(c))
